@@ -37,6 +37,9 @@ type judge struct {
 	order    []string // old commits in discovery order
 	done     int
 	reported map[string]bool
+	attrOf   map[string]map[string]string // --fixup: old commit -> path -> Git's filter attribute (raw regular files)
+	mixed    map[string]int               // --fixup: path\x00blob -> bit 1 tracked in some selected commit, bit 2 untracked in some
+	pushed   map[string]bool              // LFS oids referenced by commits reachable from remote-tracking refs
 }
 
 func (j *judge) viol(symptom, trigger, what string) {
@@ -94,6 +97,9 @@ func (c *caseCtx) judgeOp(old, new *view, o op) *judge {
 		return j
 	}
 	j.computeR()
+	if o.Fixup {
+		j.fixupAttrs()
+	}
 	j.walkRefs(true) // branches first: they define the structural correspondence
 	j.checkCommits()
 	j.walkRefs(false) // tags and everything else are then held against it
@@ -259,6 +265,54 @@ func (j *judge) walkRefs(heads bool) {
 	}
 }
 
+// fixupAttrs asks Git, per selected ORIGINAL commit, which raw regular files are LFS-tracked.
+func (j *judge) fixupAttrs() {
+	j.attrOf, j.mixed = map[string]map[string]string{}, map[string]int{}
+	for s := range j.R {
+		c := j.old.commit(s)
+		t := j.old.flatten(c.tree)
+		var ps []string
+		for _, p := range sortedPaths(t) {
+			if !isAttrPath(p) && j.old.kindOf(t[p]) == "raw" {
+				ps = append(ps, p)
+			}
+		}
+		a := j.old.filterAttr(s, ps)
+		j.c.run.Count("git_check_attr_queries", int64(len(ps)))
+		j.attrOf[s] = a
+		for _, p := range ps {
+			if a[p] == "lfs" {
+				j.mixed[p+"\x00"+t[p].Sha] |= 1
+			} else {
+				j.mixed[p+"\x00"+t[p].Sha] |= 2
+			}
+		}
+	}
+}
+
+func (j *judge) pushedOids() map[string]bool {
+	if j.pushed != nil {
+		return j.pushed
+	}
+	j.pushed = map[string]bool{}
+	var tips []string
+	for r, s := range j.old.refs {
+		if strings.HasPrefix(r, "refs/remotes/") {
+			tips = append(tips, s)
+		}
+	}
+	for s := range j.old.reach(tips) {
+		for _, e := range j.old.flatten(j.old.commit(s).tree) {
+			if e.Mode == "100644" || e.Mode == "100755" {
+				if bi := j.old.info(e.Sha); bi.ptr != nil {
+					j.pushed[bi.ptr.Oid] = true
+				}
+			}
+		}
+	}
+	return j.pushed
+}
+
 // sameTagChain: both refs peel through equally long chains of tag objects with equal
 // fields (messages modulo trailing newlines) to the same object.
 func (j *judge) sameTagChain(oSha, nSha string) bool {
@@ -410,17 +464,7 @@ func (j *judge) expectedConverted(p string, e Ent, kind string, attr map[string]
 func (j *judge) checkTrees(o, n string, oc, nc *pcommit) {
 	run := j.c.run
 	ot, nt := j.old.flatten(oc.tree), j.new.flatten(nc.tree)
-	var attr map[string]string
-	if j.op.Fixup {
-		var ps []string
-		for _, p := range sortedPaths(ot) {
-			if !isAttrPath(p) && j.old.kindOf(ot[p]) == "raw" {
-				ps = append(ps, p)
-			}
-		}
-		attr = j.old.filterAttr(o, ps)
-		run.Count("git_check_attr_queries", int64(len(ps)))
-	}
+	attr := j.attrOf[o]
 	var converted, kept []string
 	for _, p := range sortedPaths(ot) {
 		oe := ot[p]
@@ -463,13 +507,21 @@ func (j *judge) checkTrees(o, n string, oc, nc *pcommit) {
 		}
 		if nerr != "" {
 			mt := trig
-			if bi := j.new.info(ne.Sha); bi.ptr != nil && j.op.Kind == "export" && j.introducedOnlyByMerges(bi.ptr.Oid) {
+			bi := j.new.info(ne.Sha)
+			if bi.ptr != nil && j.op.Kind == "export" && j.pushedOids()[bi.ptr.Oid] {
+				// export ends with a prune; objects of commits that exist on a remote are expendable
+				// by prune's rules (the generator pushed them without uploading) => not judged
+				run.Count("objects_pruned_because_referenced_by_pushed_commits", 1)
+				goto representation
+			}
+			if bi.ptr != nil && j.op.Kind == "export" && j.introducedOnlyByMerges(bi.ptr.Oid) {
 				mt = "lfs-object-introduced-only-by-merge-commits"
 			}
 			j.viol("lfs-object-missing", mt, where+": "+nerr)
 		} else if or != nr {
 			j.viol("content-changed", trig, fmt.Sprintf("%s: resolved content sha256 %s became %s", where, short(or), short(nr)))
 		}
+	representation:
 		// (3) representation
 		want, boundary := j.expectedConverted(p, oe, kind, attr)
 		nkind := j.new.kindOf(ne)
@@ -482,8 +534,13 @@ func (j *judge) checkTrees(o, n string, oc, nc *pcommit) {
 			continue
 		}
 		ftrig := trig
-		if j.op.Fixup && j.c.spec.Gen.Fixup != "plain" && kind == "raw" {
-			ftrig = "fixup-" + j.c.spec.Gen.Fixup
+		if j.op.Fixup && kind == "raw" {
+			if j.mixed[p+"\x00"+oe.Sha] == 3 {
+				// the same blob at the same path is LFS-tracked in some selected commits and not in others
+				ftrig = "fixup-tracking-differs-between-commits"
+			} else if j.c.spec.Gen.Fixup != "plain" {
+				ftrig = "fixup-" + j.c.spec.Gen.Fixup
+			}
 		}
 		switch {
 		case want && j.op.Kind == "import":
@@ -529,6 +586,13 @@ func (j *judge) checkTrees(o, n string, oc, nc *pcommit) {
 					if matchOne(x, p) && j.op.Kind == "import" {
 						trig = "exclude-covers-existing-lfs-file"
 					}
+				}
+				if trig == "exclude-covers-existing-lfs-file" {
+					// The user's own --exclude pattern covers a file that already is in LFS; migrate then
+					// writes a negating attribute line for it. The file keeps its representation, so the
+					// statement is not violated; observed and counted only (lead's decision).
+					run.Count("observed_exclude_pattern_untracks_existing_lfs_file", 1)
+					continue
 				}
 				j.viol("existing-lfs-path-untracked", trig, fmt.Sprintf("commit %s -> %s: %q was and is an LFS pointer, Git treated it as LFS before (filter=lfs), now `git check-attr filter` says %q", short(o), short(n), p, is[p]))
 			}
